@@ -76,6 +76,33 @@ fn kx_cmp_bytes_mut() {
     core::mem::forget(y);
 }
 
+// @ob props=C14 tier=quick kind=Kbounded bound="two BytesMut handles with disjoint regions on ONE 4-byte block, lengths 0..=3" fns=PartialEq_for_BytesMut,PartialOrd_for_BytesMut,Ord_for_BytesMut,Hash_for_BytesMut
+#[kani::proof]
+#[kani::unwind(10)]
+fn kx_cmp_bytes_mut_same_block() {
+    // two live handles on the same allocation: regions [o, o+cap) are disjoint (C04), which still
+    // allows an EMPTY handle to start exactly where a non-empty neighbour starts or ends
+    // (split_to(0), split_off(k) then advance(k)).  Seed C14-6: a pointer-equality fast path in eq.
+    let (base, vcap) = alloc_fixed(4);
+    let content: [u8; 4] = kani::any();
+    unsafe { core::ptr::copy_nonoverlapping(content.as_ptr(), base, 4) };
+    let (shared, _repr) = shared_on(base, vcap, 2);
+    let (o1, l1, c1, o2, l2, c2): (usize, usize, usize, usize, usize, usize) = (kani::any(), kani::any(), kani::any(), kani::any(), kani::any(), kani::any());
+    kani::assume(o1 <= 4 && c1 <= 4 - o1 && l1 <= c1 && l1 <= 3);
+    kani::assume(o2 <= 4 && c2 <= 4 - o2 && l2 <= c2 && l2 <= 3);
+    kani::assume(o1 + c1 <= o2 || o2 + c2 <= o1);
+    let x = BytesMut { ptr: vptr(unsafe { base.add(o1) }), len: l1, cap: c1, data: shared };
+    let y = BytesMut { ptr: vptr(unsafe { base.add(o2) }), len: l2, cap: c2, data: shared };
+    let (sx, sy): (&[u8], &[u8]) = (&content[o1..o1 + l1], &content[o2..o2 + l2]);
+    assert!((x == y) == (sx == sy) && (y == x) == (sx == sy));
+    assert!(x.partial_cmp(&y) == sx.partial_cmp(sy) && x.cmp(&y) == sx.cmp(sy));
+    assert!((x < y) == (sx < sy) && (x > y) == (sy < sx));
+    assert!(h(&x) == h(sx) && h(&y) == h(sy));
+    kani::cover!(o1 == o2 && l1 != l2, "same start address, one handle empty");
+    core::mem::forget(x);
+    core::mem::forget(y);
+}
+
 // @ob props=C14 tier=quick kind=Kbounded bound="views of 0..=3 bytes; Vec / String sides (ASCII)" fns=PartialEq<Vec<u8>>,PartialOrd<Vec<u8>>,PartialEq<String>,PartialOrd<String>,PartialEq<str>,PartialOrd<str>
 #[kani::proof]
 #[kani::unwind(6)]
